@@ -36,7 +36,7 @@
 (***************************************************************************)
 EXTENDS Integers, FiniteSets, Sequences, TLC, Json
 
-CONSTANTS Obj, MaxSteps, TlsRecurse, SweepCoop, StopOps, Spawners, NestedSweep, TeardownLoop,
+CONSTANTS Obj, MaxSteps, TlsRecurse, SweepCoop, StopOps, Spawners, NestedSweep, TeardownLoop, Registers, FlushRegs,
           Emit, ClearOnProcess   \* phase 2 clears a pending entry before finalising it (needed once SweepCoop is on)
 
 VARIABLES st,        \* st[o] \in {"free", "live", "final"}
@@ -45,6 +45,7 @@ VARIABLES st,        \* st[o] \in {"free", "live", "final"}
           fld,       \* fld[o] \subseteq Obj : pointer fields / elements
           owned,     \* objects owned through a Box
           stack, tls,
+          cpu,       \* objects the mutator references from callee-saved registers ONLY (a local an optimising compiler never spilled)
           reg,       \* the collector's registry (set of objects), rootf = its root flags
           rootf,
           fin,       \* fin[o] = how many times o was finalised (destructed + released)
@@ -53,7 +54,7 @@ VARIABLES st,        \* st[o] \in {"free", "live", "final"}
           swept,     \* objects reclaimed BY THE SWEEP of the last collection (not through ownership)
           steps, act
 
-vars == <<st, kind, mode, fld, owned, stack, tls, reg, rootf, fin, asked, running, down, swept, steps, act>>
+vars == <<st, kind, mode, fld, owned, stack, cpu, tls, reg, rootf, fin, asked, running, down, swept, steps, act>>
 
 Live == {o \in Obj : st[o] = "live"}
 
@@ -63,12 +64,13 @@ Reach(S, seen, Via) ==
   LET nxt == (UNION {fld[o] : o \in S \cap Via}) \ seen
   IN IF nxt = {} THEN seen ELSE Reach(nxt, seen \cup nxt, Via)
 
-Roots == stack \cup tls \cup {o \in reg : rootf[o]}
+Roots == stack \cup cpu \cup tls \cup {o \in reg : rootf[o]}
 (* C01's notion: reachable from the stack, TLS or a root-registered object through managed objects *)
 Reachable == Reach(Roots, Roots, reg) \cap Live
 
 (* what GC_Mark marks *)
-MarkRoots == stack \cup {o \in reg : rootf[o]} \cup (IF TlsRecurse THEN tls ELSE {})
+(* (the registers are roots only because GC_Mark spills them into its own frame - setjmp on a LOCAL buffer - before it scans the stack) *)
+MarkRoots == stack \cup (IF FlushRegs THEN cpu ELSE {}) \cup {o \in reg : rootf[o]} \cup (IF TlsRecurse THEN tls ELSE {})
 Marked == Reach(MarkRoots, MarkRoots, reg) \cap reg
 
 -----------------------------------------------------------------------------
@@ -106,7 +108,7 @@ Tick(a) == steps' = steps + 1 /\ act' = a /\ steps < MaxSteps
 
 -----------------------------------------------------------------------------
 Init == /\ st = [o \in Obj |-> "free"] /\ kind = [o \in Obj |-> "plain"] /\ mode = [o \in Obj |-> "std"]
-        /\ fld = [o \in Obj |-> {}] /\ owned = {} /\ stack = {} /\ tls = {} /\ reg = {} /\ rootf = [o \in Obj |-> FALSE]
+        /\ fld = [o \in Obj |-> {}] /\ owned = {} /\ stack = {} /\ cpu = {} /\ tls = {} /\ reg = {} /\ rootf = [o \in Obj |-> FALSE]
         /\ fin = [o \in Obj |-> 0] /\ asked = {} /\ running = TRUE /\ down = FALSE /\ swept = {} /\ steps = 0 /\ act = [op |-> "init"]
 
 (* new / new_root / new_raw of a plain object; the mutator holds it on its stack *)
@@ -115,7 +117,7 @@ New(o, md) ==
   /\ \A p \in Obj : p < o => st[p] # "free" \/ fin[p] > 0          \* symmetry: allocate ids in order
   /\ Tick([op |-> "new", o |-> o, md |-> md])
   /\ st' = [st EXCEPT ![o] = "live"] /\ kind' = [kind EXCEPT ![o] = "plain"] /\ mode' = [mode EXCEPT ![o] = md]
-  /\ fld' = [fld EXCEPT ![o] = {}] /\ stack' = stack \cup {o}
+  /\ fld' = [fld EXCEPT ![o] = {}] /\ stack' = stack \cup {o} /\ cpu' = cpu
   /\ IF md # "raw" /\ running THEN reg' = reg \cup {o} /\ rootf' = [rootf EXCEPT ![o] = (md = "root")]
      ELSE UNCHANGED <<reg, rootf>>                                 \* GC_Set returns at once when stopped
   /\ UNCHANGED <<owned, tls, fin, asked, running, down, swept>>
@@ -126,7 +128,7 @@ NewSpawner(o) ==
   /\ \A p \in Obj : p < o => st[p] # "free" \/ fin[p] > 0
   /\ Tick([op |-> "newspawner", o |-> o])
   /\ st' = [st EXCEPT ![o] = "live"] /\ kind' = [kind EXCEPT ![o] = "spawner"] /\ mode' = [mode EXCEPT ![o] = "std"]
-  /\ fld' = [fld EXCEPT ![o] = {}] /\ stack' = stack \cup {o}
+  /\ fld' = [fld EXCEPT ![o] = {}] /\ stack' = stack \cup {o} /\ cpu' = cpu
   /\ reg' = reg \cup {o} /\ rootf' = [rootf EXCEPT ![o] = FALSE]
   /\ UNCHANGED <<owned, tls, fin, asked, running, down, swept>>
 
@@ -138,18 +140,25 @@ NewBox(b, p, md) ==
   /\ \A q \in Obj : p \notin fld[q]                                 \* in contract: the pointee is not aliased
   /\ Tick([op |-> "newbox", o |-> b, p |-> p, md |-> md])
   /\ st' = [st EXCEPT ![b] = "live"] /\ kind' = [kind EXCEPT ![b] = "box"] /\ mode' = [mode EXCEPT ![b] = md]
-  /\ fld' = [fld EXCEPT ![b] = {p}] /\ owned' = owned \cup {p} /\ stack' = stack \cup {b}
+  /\ fld' = [fld EXCEPT ![b] = {p}] /\ owned' = owned \cup {p} /\ stack' = stack \cup {b} /\ cpu' = cpu
   /\ reg' = reg \cup {b} /\ rootf' = [rootf EXCEPT ![b] = (md = "root")]
   /\ UNCHANGED <<tls, fin, asked, running, down, swept>>
 
 Store(o, p) == /\ ~down /\ st[o] = "live" /\ st[p] = "live" /\ kind[o] = "plain" /\ p \notin owned /\ p \notin fld[o]
                /\ Cardinality(fld[o]) < 2 /\ Tick([op |-> "store", o |-> o, p |-> p])
                /\ fld' = [fld EXCEPT ![o] = @ \cup {p}]
-               /\ UNCHANGED <<st, kind, mode, owned, stack, tls, reg, rootf, fin, asked, running, down, swept>>
-Drop(o) == /\ ~down /\ o \in stack /\ Tick([op |-> "drop", o |-> o]) /\ stack' = stack \ {o}
+               /\ UNCHANGED <<st, kind, mode, owned, stack, cpu, tls, reg, rootf, fin, asked, running, down, swept>>
+Drop(o) == /\ ~down /\ o \in stack \cup cpu /\ Tick([op |-> "drop", o |-> o]) /\ stack' = stack \ {o} /\ cpu' = cpu \ {o}
            /\ UNCHANGED <<st, kind, mode, fld, owned, tls, reg, rootf, fin, asked, running, down, swept>>
+(* the compiler moves a local between a stack slot and a callee-saved register: invisible to the program *)
+Enregister(o) == /\ Registers /\ ~down /\ o \in stack /\ Cardinality(cpu) < 2 /\ Tick([op |-> "enregister", o |-> o])
+                 /\ stack' = stack \ {o} /\ cpu' = cpu \cup {o}
+                 /\ UNCHANGED <<st, kind, mode, fld, owned, tls, reg, rootf, fin, asked, running, down, swept>>
+Spill(o) == /\ Registers /\ ~down /\ o \in cpu /\ Tick([op |-> "spill", o |-> o])
+            /\ stack' = stack \cup {o} /\ cpu' = cpu \ {o}
+            /\ UNCHANGED <<st, kind, mode, fld, owned, tls, reg, rootf, fin, asked, running, down, swept>>
 SetTls(o) == /\ ~down /\ st[o] = "live" /\ o \notin tls /\ mode[o] = "std" /\ Tick([op |-> "settls", o |-> o]) /\ tls' = tls \cup {o}
-             /\ UNCHANGED <<st, kind, mode, fld, owned, stack, reg, rootf, fin, asked, running, down, swept>>
+             /\ UNCHANGED <<st, kind, mode, fld, owned, stack, cpu, reg, rootf, fin, asked, running, down, swept>>
 
 (* explicit del / del_root / del_raw by the mutator (once per object, never of a Box-owned object) *)
 Del(o) ==
@@ -162,7 +171,7 @@ Del(o) ==
      ELSE IF running /\ o \in reg
           THEN LET r == Finalise(o, reg \ {o}, {}, fin, st) IN reg' = r[1] /\ fin' = r[3] /\ st' = r[4]
           ELSE UNCHANGED <<reg, fin, st>>                           \* stopped, or unknown to the registry: ignored
-  /\ stack' = (stack \ {o}) \cap {x \in Obj : st'[x] = "live"} /\ tls' = (tls \ {o}) \cap {x \in Obj : st'[x] = "live"}
+  /\ stack' = (stack \ {o}) \cap {x \in Obj : st'[x] = "live"} /\ cpu' = (cpu \ {o}) \cap {x \in Obj : st'[x] = "live"} /\ tls' = (tls \ {o}) \cap {x \in Obj : st'[x] = "live"}
   /\ UNCHANGED <<kind, mode, fld, owned, rootf, running, down, swept>>
 
 Collect ==
@@ -173,13 +182,13 @@ Collect ==
        \E order \in Perms(dead) :
          LET r == Phase2([i \in 1..Cardinality(dead) |-> order[i]], keep, dead, fin, st) IN
          reg' = r[1] /\ fin' = r[2] /\ st' = r[3] /\ swept' = dead
-  /\ stack' = stack \cap {o \in Obj : st'[o] = "live"} /\ tls' = tls \cap {o \in Obj : st'[o] = "live"}
+  /\ stack' = stack \cap {o \in Obj : st'[o] = "live"} /\ cpu' = cpu \cap {o \in Obj : st'[o] = "live"} /\ tls' = tls \cap {o \in Obj : st'[o] = "live"}
   /\ UNCHANGED <<kind, mode, fld, owned, rootf, asked, running, down>>
 
 Stop  == ~down /\ running /\ Tick([op |-> "stop"]) /\ running' = FALSE
-         /\ UNCHANGED <<st, kind, mode, fld, owned, stack, tls, reg, rootf, fin, asked, down, swept>>
+         /\ UNCHANGED <<st, kind, mode, fld, owned, stack, cpu, tls, reg, rootf, fin, asked, down, swept>>
 Start == ~down /\ ~running /\ Tick([op |-> "start"]) /\ running' = TRUE
-         /\ UNCHANGED <<st, kind, mode, fld, owned, stack, tls, reg, rootf, fin, asked, down, swept>>
+         /\ UNCHANGED <<st, kind, mode, fld, owned, stack, cpu, tls, reg, rootf, fin, asked, down, swept>>
 
 (* thread / program exit: GC_Del sweeps with nothing marked *)
 RECURSIVE TearMore(_, _, _)
@@ -197,7 +206,7 @@ Teardown ==
            t == TearMore(r[1], r[2], r[3]) IN
        reg' = t[1] /\ fin' = t[2] /\ st' = t[3]
   /\ down' = TRUE /\ swept' = {}
-  /\ stack' = stack \cap {o \in Obj : st'[o] = "live"} /\ tls' = tls \cap {o \in Obj : st'[o] = "live"}
+  /\ stack' = stack \cap {o \in Obj : st'[o] = "live"} /\ cpu' = cpu \cap {o \in Obj : st'[o] = "live"} /\ tls' = tls \cap {o \in Obj : st'[o] = "live"}
   /\ UNCHANGED <<kind, mode, fld, owned, rootf, asked, running>>
 
 Next == \/ \E o \in Obj, md \in {"std", "root", "raw"} : New(o, md)
@@ -205,6 +214,7 @@ Next == \/ \E o \in Obj, md \in {"std", "root", "raw"} : New(o, md)
         \/ \E o \in Obj : NewSpawner(o)
         \/ \E o, p \in Obj : Store(o, p)
         \/ \E o \in Obj : Drop(o) \/ SetTls(o) \/ Del(o)
+        \/ \E o \in Obj : Enregister(o) \/ Spill(o)
         \/ Collect \/ Stop \/ Start \/ Teardown
 
 Spec == Init /\ [][Next]_vars
@@ -219,9 +229,9 @@ DownClean == down => \A o \in Obj : (st[o] # "free" /\ mode[o] = "std") => fin[o
 NoZombie  == \A o \in Obj : (st[o] = "final") = (fin[o] >= 1)
 (* C17 at this level of abstraction: the registry is exactly the live managed objects *)
 RegExact  == ~StopOps => reg = {o \in Obj : st[o] = "live" /\ mode[o] # "raw"}
-view == <<st, kind, mode, fld, owned, stack, tls, reg, rootf, fin, asked, running, down, swept, steps>>
+view == <<st, kind, mode, fld, owned, stack, cpu, tls, reg, rootf, fin, asked, running, down, swept, steps>>
 Sid == <<[o \in Obj |-> <<st[o], kind[o], mode[o], fld[o], fin[o]>>], stack, tls, reg, asked, running, down, steps>>
 Sid2 == <<[o \in Obj |-> <<st'[o], kind'[o], mode'[o], fld'[o], fin'[o]>>], stack', tls', reg', asked', running', down', steps'>>
 EmitEdge == Emit => PrintT(<<"EDGE", ToJson([f |-> Sid, a |-> act', t |-> Sid2])>>)
-TypeOK    == reg \subseteq Obj /\ stack \subseteq Live /\ tls \subseteq Live
+TypeOK    == reg \subseteq Obj /\ stack \subseteq Live /\ tls \subseteq Live /\ cpu \subseteq Live /\ cpu \cap stack = {}
 =============================================================================
